@@ -41,6 +41,9 @@ func checkC18(c *Ctx) {
 		regexpRuleList(c, p)
 		frameFilesHardened(c, p, m)
 		pathRulesTraversal(c, p, "R18.8")
+		prefixCutAgrees(c, p, "R18.2")
+		noClearOnLists(c, p, "R18.6")
+		deleteUnderFound(c, p, "R18.6", "RemoveKnownPathRegexpMapping", "knownPathRegexpMap")
 		pathComparedAsGiven(c, p, "R18.2")
 		regexpMatchOnlyDecides(c, p, "R18.2")
 		privacyOnByDefault(c, p, "R18.9")
@@ -126,7 +129,15 @@ func c18Check(c *Ctx, p *Prog, m *Model) {
 			}
 			n++
 			ok := false
-			if call, isC := fs.Val.(*ssa.Call); isC && (calleeOf(call) == cp || (calleeOf(call) != nil && calleeOf(call).Pkg == p.Slog && isBaseNameFn(calleeOf(call)))) {
+			// a suffix of the hardened path (shortfile(checkpath(frame.File))) is as hardened as the path
+			if outer, isC := fs.Val.(*ssa.Call); isC && calleeOf(outer) != nil && calleeOf(outer) != cp && calleeOf(outer).Pkg == p.Slog && isBaseNameFn(calleeOf(outer)) {
+				if inner, isI := strip(outer.Common().Args[0]).(*ssa.Call); isI && calleeOf(inner) == cp {
+					if _, _, f, isF := fieldLoad(strip(inner.Common().Args[0])); isF && nm(f) == "File" {
+						ok = true
+					}
+				}
+			}
+			if call, isC := fs.Val.(*ssa.Call); isC && !ok && (calleeOf(call) == cp || (calleeOf(call) != nil && calleeOf(call).Pkg == p.Slog && isBaseNameFn(calleeOf(call)))) {
 				// checkpath(frame.File), or the bare file name of it (no directory left to protect)
 				if _, _, f, isF := fieldLoad(strip(call.Common().Args[0])); isF && nm(f) == "File" {
 					ok = true
